@@ -111,6 +111,9 @@ func optsFromCase(cs CaseSpec) NodeOpts {
 	if s := cs.I("synclimit", 0); s > 0 {
 		o.SyncLimit = int(s)
 	}
+	if s := cs.I("suspendlimit", 0); s > 0 {
+		o.SuspendLimit = int(s)
+	}
 	return o
 }
 
@@ -185,7 +188,7 @@ func runHistory(cs CaseSpec, mk func(nw *Network) []Monitor, after func(nw *Netw
 	}
 	res.count("blocks_on_longest_chain", int64(blocks))
 	res.count("histories", 1)
-	if blocks >= 3 && len(nw.Rec.Order) >= 20 {
+	if blocks >= 3 && len(nw.Rec.Order) >= 20 && res.Counters["liveness_premise_not_met_live_validators_not_a_supermajority"] == 0 {
 		res.digest("history", cs.Seed, cs.Index, len(nw.Rec.Order), blocks, nw.Rec.Order[len(nw.Rec.Order)-1].Hash)
 	}
 	res.Sample = map[string]interface{}{
@@ -301,6 +304,9 @@ func init() {
 		Cases: func(tier string, seed int64) []CaseSpec {
 			cs := chainCases(tier, seed+32452843, 64, 800, true)
 			for i := range cs {
+				// self-suspension (C17's subject) is switched off: a prefix without quorum
+				// only piles up undetermined events which the fair suffix must resolve
+				cs[i].P["suspendlimit"] = 1000000
 				if i%3 == 2 && cs[i].P["n"] >= 4 && cs[i].S["shape"] != "silent" {
 					cs[i].P["ffresets"] = 1
 				}
